@@ -242,6 +242,16 @@ var _ = pr.AutoF
 //@   ensures second(siblingBefore.PageValues()) != first(siblingAfter.PageValues()) ==> result == first(siblingAfter.PageValues())
 //@   ensures second(siblingBefore.PageValues()) == first(siblingAfter.PageValues()) ==> result == ""
 
+// css-break-3 §3.1 "the strongest value wins": walking the break-after values of the boxes that end at the
+// boundary and the break-before values of those that start at it, a page-side value (left, right, recto,
+// verso) always replaces what was found so far, a forced page or column break replaces only auto and the
+// avoid values, an avoid value replaces only auto, and nothing else changes the result.
+//@ func blockLevelPageBreak
+//@   props C12
+//@   modifies anything
+//@   let wins = value == "left" || value == "right" || value == "recto" || value == "verso" || ((value == "page" || value == "column") && (old(result) == "auto" || old(result) == "avoid" || old(result) == "avoid-page" || old(result) == "avoid-column")) || ((value == "avoid" || value == "avoid-page" || value == "avoid-column") && old(result) == "auto")
+//@   loop 3 step[strongest] result == ite(wins, value, old(result))
+
 // C11: a line box is as tall as its contents. maxY / minY are running extrema over the in-flow
 // children (and, recursively, over the contents of nested inline boxes): every assignment
 // can only raise maxY and lower minY — in particular what a nested inline box contributes
